@@ -1,12 +1,6 @@
 package rules
 
 import (
-	"fmt"
-	"go/ast"
-	"go/token"
-	"go/types"
-	"strings"
-
 	"osmcheck/core"
 )
 
@@ -14,25 +8,26 @@ func init() {
 	register(&core.Property{
 		ID:    "C02",
 		Title: "Parallel PBF decoding preserves file order under every schedule",
-		Explanation: "Decided on the pipeline model for every schedule, because the rules are about which goroutine can touch what and in which channel order, not about timing: " +
-			"(Q1) the only ordering mechanism is wired consistently: the reader dispatches block k to inputs[i] with i stepping (i+1)%n from 0, once per block, error pairs included; the serializer collects from outputs[i] with the same start, step and modulus, one receive per turn; worker k connects inputs[k] to outputs[k] and emits exactly one output pair per input pair; " +
-			"(Q2) each worker owns a private decoder value allocated in the spawning loop and captured by exactly one closure; goroutine closures capture no loop variable; " +
-			"(Q3) the object slice handed to the consumer is a fresh make per block and is only appended to between that make and the return; " +
+		Explanation: "Decided on the pipeline model (found by role, goroutine bodies as closures or as `go f(args)` methods, helpers followed) for every schedule, because the rules are about which goroutine can touch what and in which channel order, not about timing. The order rules run automata over every path of a goroutine (control-flow graph, helper calls inlined), so they do not depend on statement shape, naming or on which helper holds a statement: " +
+			"(Q1) the only ordering mechanism is wired consistently: in the reader, between two passes of the read loop's head, the slot dec.inputs[i] is evaluated once and before the step, i is stepped once by (i+1)%n (n the worker count), exactly one pair (data or error) is emitted on the picked channel, i starts at 0, and a block sent before the loop goes to slot 0 followed by exactly one step; the serializer picks dec.outputs[i] with the same start, step and modulus, receives once per turn from the picked channel and forwards exactly the received pair once to the consumer's queue; worker k receives from the channel appended to inputs and sends on the channel appended to outputs in its iteration of the spawning loop (each appended once, unconditionally, nowhere else) and emits exactly one output pair per input pair on every path; only the consumer (Close) and the serializer's deferred exit may cancel the decoder's context; " +
+			"(Q2) each worker gets a per-iteration fresh decoder value (allocation or constructor) referenced only by its go statement; goroutine closures capture no loop variable; " +
+			"(Q3) on every path of the decode entry a fresh make is assigned to the object slice before anything is appended and before it is returned; the slice is only written by that make and by append; " +
 			"(Q4) the reader's scratch buffers flow only into io.ReadFull, binary.BigEndian.Uint32, proto.Unmarshal and len; no proto.UnmarshalOptions and no unsafe in the package; " +
-			"(Q5) no decoder/Scanner field is written in one role and accessed in another without a hand-off (accesses under a Done case belong to C07), and per-worker decoder fields are only reached through the owning decoder value. " +
-			"NOT decided: equality of the delivered sequences as values, races inside libraries or user filter callbacks.",
+			"(Q5) no decoder/Scanner field is written in one role and accessed in another without a hand-off (accesses under a Done case belong to C07), and per-worker decoder fields are only reached through the receiver / a parameter of worker-only functions. " +
+			"NOT decided: equality of the delivered sequences as values, races inside libraries or user filter callbacks; round-robin counters written in another form than `i = (i+1) % n` are reported as not understood.",
 		Assumptions: []string{"go/types, go/cfg (x/tools v0.29.0)", "FIFO order of Go channels", "proto.Unmarshal copies bytes/strings out of its input (default options)", "static intra-package call graph"},
 		LevelText:   "Structural necessary conditions of order preservation under every schedule: round-robin dispatch and collection agree (start, step, modulus, one operation per block), workers are 1:1 with their channel pair and emit one pair per block, and no memory is shared across goroutines after hand-off.",
 		LevelNote:   "Trusts the type checker, FIFO channels, and that proto.Unmarshal copies; does not decide value equality of sequences or library internals.",
 		Technique:   "pipeline-model extraction + structural agreement of the two round-robin counters + ownership/escape rules (closure capture, fresh-slice typestate, scratch-buffer flow) + per-field role separation",
 		DesignRef:   "DESIGN.md §3.1, §5 C02",
 		Rules: []*core.Rule{
-			{ID: "Q1", Floor: 7, Doc: "round-robin dispatch and collection agree; one output pair per input pair", Run: c02Q1},
+			{ID: "Q1", Floor: 9, Doc: "round-robin dispatch and collection agree; one output pair per input pair; cancel authority (reader 4 constructs, serializer 2, worker 2, cancel sites >= 1)", Run: c02Q1},
 			{ID: "Q2", Floor: 4, Doc: "private per-worker decoder; closures capture no loop variable", Run: c02Q2},
 			{ID: "Q3", Floor: 3, Doc: "object slice is fresh per block and only appended to before it is returned", Run: c02Q3},
 			{ID: "Q4", Floor: 5, Doc: "scratch buffers do not escape; no UnmarshalOptions; no unsafe", Run: c02Q4},
 			{ID: "Q5", Floor: 30, Doc: "role separation of decoder, Scanner and per-worker decoder fields", Run: c02Q5},
 		},
+		Benign: c02Benign,
 		Mutants: []core.Mutant{
 			{Name: "serializer-starts-at-1", File: "osmpbf/decode.go", Find: "for i := 0; ; i = (i + 1) % n {", Replace: "for i := 1 % n; ; i = (i + 1) % n {", ExpectRule: "Q1", ExpectConstruct: "serializer"},
 			{Name: "reader-step-2", File: "osmpbf/decode.go", Find: "\t\t\tinput := dec.inputs[i]\n\t\t\ti = (i + 1) % n", Replace: "\t\t\tinput := dec.inputs[i]\n\t\t\ti = (i + 2) % n", ExpectRule: "Q1", ExpectConstruct: "reader"},
@@ -40,6 +35,11 @@ func init() {
 			{Name: "error-pair-skips-slot", File: "osmpbf/decode.go", Find: "\t\t\tpair := iPair{Offset: offset, Blob: blob}\n\t\t\tif err != nil {\n\t\t\t\tpair = iPair{Err: err}\n\t\t\t}\n", Replace: "\t\t\tpair := iPair{Offset: offset, Blob: blob}\n\t\t\tif err != nil {\n\t\t\t\tpair = iPair{Err: err}\n\t\t\t\tinput = dec.inputs[0]\n\t\t\t}\n", ExpectRule: "Q1", ExpectConstruct: "reader"},
 			{Name: "worker-skips-error-pairs", File: "osmpbf/decode.go", Find: "\t\t\t\t} else {\n\t\t\t\t\tout = oPair{Err: p.Err} // send input error as is\n\t\t\t\t}", Replace: "\t\t\t\t} else if p.Err != io.EOF {\n\t\t\t\t\tcontinue\n\t\t\t\t} else {\n\t\t\t\t\tout = oPair{Err: p.Err} // send input error as is\n\t\t\t\t}", ExpectRule: "Q1", ExpectConstruct: "worker"},
 			{Name: "outputs-appended-twice", File: "osmpbf/decode.go", Find: "\t\tdec.outputs = append(dec.outputs, output)\n", Replace: "\t\tdec.outputs = append(dec.outputs, output)\n\t\tif i == 0 {\n\t\t\tdec.outputs = append(dec.outputs, output)\n\t\t}\n", ExpectRule: "Q1", ExpectConstruct: "worker"},
+			{Name: "worker-cancels-on-error", File: "osmpbf/decode.go", Find: "\t\t\t\tselect {\n\t\t\t\tcase output <- out:\n\t\t\t\tcase <-dec.ctx.Done():\n\t\t\t\t}\n", Replace: "\t\t\t\tselect {\n\t\t\t\tcase output <- out:\n\t\t\t\tcase <-dec.ctx.Done():\n\t\t\t\t}\n\n\t\t\t\tif out.Err != nil && out.Err != io.EOF {\n\t\t\t\t\tdec.cancel()\n\t\t\t\t\treturn\n\t\t\t\t}\n", ExpectRule: "Q1", ExpectConstruct: "cancel-authority"},
+			{Name: "worker-skips-empty-blocks", File: "osmpbf/decode.go", Find: "\t\t\t\t\tobjects, err := dd.Decode(p.Blob)\n", Replace: "\t\t\t\t\tobjects, err := dd.Decode(p.Blob)\n\t\t\t\t\tif err == nil && len(objects) == 0 {\n\t\t\t\t\t\tcontinue\n\t\t\t\t\t}\n", ExpectRule: "Q1", ExpectConstruct: "one-out-per-in"},
+			{Name: "reader-picks-after-step", File: "osmpbf/decode.go", Find: "\t\t\tinput := dec.inputs[i]\n\t\t\ti = (i + 1) % n\n", Replace: "\t\t\ti = (i + 1) % n\n\t\t\tinput := dec.inputs[i]\n", ExpectRule: "Q1", ExpectConstruct: "dispatch"},
+			{Name: "serializer-skips-empty-pairs", File: "osmpbf/decode.go", Find: "\t\t\tselect {\n\t\t\tcase dec.serializer <- p:\n\t\t\tcase <-dec.ctx.Done():\n\t\t\t\treturn\n\t\t\t}\n", Replace: "\t\t\tif len(p.Objects) == 0 && p.Err == nil {\n\t\t\t\tcontinue\n\t\t\t}\n\n\t\t\tselect {\n\t\t\tcase dec.serializer <- p:\n\t\t\tcase <-dec.ctx.Done():\n\t\t\t\treturn\n\t\t\t}\n", ExpectRule: "Q1", ExpectConstruct: "forward"},
+			{Name: "serializer-collects-fixed-slot", File: "osmpbf/decode.go", Find: "\t\t\toutput := dec.outputs[i]\n\n\t\t\tvar p oPair", Replace: "\t\t\toutput := dec.outputs[0]\n\n\t\t\tvar p oPair", ExpectRule: "Q1", ExpectConstruct: "collect"},
 			{Name: "shared-data-decoder", File: "osmpbf/decode.go", Find: "\t// start data decoders\n\tfor i := 0; i < n; i++ {\n\t\tinput := make(chan iPair, numChanels)\n\t\toutput := make(chan oPair, numChanels)\n\n\t\tdd := &dataDecoder{scanner: dec.scanner}\n", Replace: "\t// start data decoders\n\tdd := &dataDecoder{scanner: dec.scanner}\n\tfor i := 0; i < n; i++ {\n\t\tinput := make(chan iPair, numChanels)\n\t\toutput := make(chan oPair, numChanels)\n", ExpectRule: "Q2", ExpectConstruct: "decoder"},
 			{Name: "reuse-object-slice", File: "osmpbf/decode_data.go", Find: "dec.q = make([]osm.Object, 0, 8000)", Replace: "dec.q = dec.q[:0]", ExpectRule: "Q3", ExpectConstruct: "q"},
 			{Name: "keep-blob-buffer", File: "osmpbf/decode.go", Find: "\tblob := &osmpbf.Blob{}\n\tif err := proto.Unmarshal(buf, blob); err != nil {\n\t\treturn nil, err\n\t}\n\treturn blob, nil", Replace: "\tblob := &osmpbf.Blob{}\n\tif err := proto.Unmarshal(buf, blob); err != nil {\n\t\treturn nil, err\n\t}\n\tif blob.Raw != nil {\n\t\tblob.Raw = buf[len(buf)-len(blob.Raw):]\n\t}\n\treturn blob, nil", ExpectRule: "Q4", ExpectConstruct: "buf"},
@@ -47,918 +47,4 @@ func init() {
 			{Name: "worker-writes-decoder-field", File: "osmpbf/decode.go", Find: "\t\t\t\tvar out oPair\n", Replace: "\t\t\t\tvar out oPair\n\t\t\t\tdec.cIndex = 0\n", ExpectRule: "Q5", ExpectConstruct: "cIndex"},
 		},
 	})
-}
-
-// stepForm recognises `v = (v + K) % n` and returns K and the modulus object.
-func stepForm(info *types.Info, st ast.Stmt, v types.Object) (int64, types.Object, bool) {
-	as, ok := st.(*ast.AssignStmt)
-	if !ok || as.Tok != token.ASSIGN || len(as.Lhs) != 1 || len(as.Rhs) != 1 || objOf(info, as.Lhs[0]) != v {
-		return 0, nil, false
-	}
-	be, ok := ast.Unparen(as.Rhs[0]).(*ast.BinaryExpr)
-	if !ok || be.Op != token.REM {
-		return 0, nil, false
-	}
-	sum, ok := ast.Unparen(be.X).(*ast.BinaryExpr)
-	if !ok || sum.Op != token.ADD || objOf(info, sum.X) != v {
-		return 0, nil, false
-	}
-	k, ok := constInt(info, sum.Y)
-	if !ok {
-		return 0, nil, false
-	}
-	n := objOf(info, be.Y)
-	return k, n, n != nil
-}
-
-func c02Q1(r *core.R) {
-	m := modelOrAnchor(r)
-	if m == nil {
-		return
-	}
-	info := m.info
-	// number-of-workers variable: bound of the spawning loop
-	var nObj types.Object
-	var spawnLoop *ast.ForStmt
-	for _, g := range m.gos {
-		if g.inLoop != nil {
-			spawnLoop = g.inLoop
-			if be, ok := g.inLoop.Cond.(*ast.BinaryExpr); ok {
-				nObj = objOf(info, be.Y)
-			}
-		}
-	}
-	if nObj == nil || !loopRunsNTimes(info, spawnLoop, nObj) {
-		r.Anchor("worker-spawning loop `for i := 0; i < n; i++`")
-		return
-	}
-	ops := m.chanOps()
-	consumerRecv := ""
-	for _, op := range ops {
-		if (op.kind == "recv" || op.kind == "range") && op.u.roles["consumer"] {
-			consumerRecv = op.class
-		}
-	}
-	// channel classes: inputs = what workers range over, outputs = what workers send on
-	var inCls, outCls string
-	for _, op := range ops {
-		if op.u.roles["worker"] && len(op.u.roles) == 1 {
-			if op.kind == "range" {
-				inCls = op.class
-			}
-			if op.kind == "send" {
-				outCls = op.class
-			}
-		}
-	}
-	if inCls == "" || outCls == "" || consumerRecv == "" {
-		r.Anchor("worker input/output channel classes")
-		return
-	}
-
-	// ---- reader
-	rd := m.goOf("reader")
-	ru := m.units[rd.lit]
-	var rloop *ast.ForStmt
-	for _, st := range rd.lit.Body.List {
-		if fs, ok := st.(*ast.ForStmt); ok {
-			rloop = fs
-		}
-	}
-	if rloop == nil {
-		r.Anchor("reader loop at the top level of the reader goroutine")
-		return
-	}
-	// counter: the variable indexing dec.<inCls> in the loop
-	var iObj types.Object
-	var chVar types.Object
-	var pickIdx, stepIdx, sendIdx = -1, -1, -1
-	for k, st := range rloop.Body.List {
-		switch s := st.(type) {
-		case *ast.AssignStmt:
-			if len(s.Lhs) == 1 && len(s.Rhs) == 1 {
-				if ix, ok := ast.Unparen(s.Rhs[0]).(*ast.IndexExpr); ok {
-					if f := fieldOf(info, ix.X); f != nil && f.Name() == inCls {
-						if pickIdx >= 0 {
-							r.Bad("dispatch@"+ru.name, s.Pos(), "the channel for a block is chosen more than once per iteration")
-						}
-						pickIdx = k
-						iObj = objOf(info, ix.Index)
-						chVar = objOf(info, s.Lhs[0])
-					}
-				}
-			}
-		case *ast.SelectStmt:
-			for _, c := range s.Body.List {
-				if snd, ok := c.(*ast.CommClause).Comm.(*ast.SendStmt); ok {
-					if sendIdx >= 0 {
-						r.Bad("dispatch@"+ru.name, snd.Pos(), "more than one send per iteration")
-					}
-					sendIdx = k
-					if chVar == nil || objOf(info, snd.Chan) != chVar {
-						r.Bad("dispatch@"+ru.name+" send", snd.Pos(), "the block is sent on `%s`, not on the channel picked by the round-robin counter in this iteration", src(r.P.Fset, snd.Chan))
-					}
-				}
-			}
-		case *ast.SendStmt:
-			sendIdx = k
-			if chVar == nil || objOf(info, s.Chan) != chVar {
-				r.Bad("dispatch@"+ru.name+" send", s.Pos(), "the block is sent on `%s`, not on the channel picked by the round-robin counter in this iteration", src(r.P.Fset, s.Chan))
-			}
-		}
-	}
-	if iObj != nil {
-		for k, st := range rloop.Body.List {
-			if kk, nn, ok := stepForm(info, st, iObj); ok {
-				if stepIdx >= 0 {
-					r.Bad("dispatch@"+ru.name+" step", st.Pos(), "the round-robin counter is stepped more than once per iteration")
-				}
-				stepIdx = k
-				if kk != 1 || nn != nObj {
-					r.Bad("dispatch@"+ru.name+" step", st.Pos(), "`%s`: the dispatch counter must advance by 1 modulo the number of workers %s (the serializer collects with step 1)", src(r.P.Fset, st), nObj.Name())
-				}
-			}
-		}
-	}
-	c := "dispatch@" + ru.name
-	switch {
-	case pickIdx < 0 || iObj == nil:
-		r.Bad(c, rloop.Pos(), "the reader loop does not pick `dec.%s[i]` once per iteration at the top level of its body", inCls)
-	case stepIdx < 0:
-		r.Bad(c+" step", rloop.Pos(), "the dispatch counter %s is not advanced by `(i+1) %% %s` once per iteration", iObj.Name(), nObj.Name())
-	case sendIdx < 0:
-		r.Bad(c, rloop.Pos(), "no unconditional send at the top level of the reader loop: some blocks (e.g. error pairs) would not take their round-robin slot")
-	default:
-		// no other write to the counter or to the picked channel variable inside the loop
-		extra := 0
-		ast.Inspect(rloop.Body, func(n ast.Node) bool {
-			switch s := n.(type) {
-			case *ast.AssignStmt:
-				for _, l := range s.Lhs {
-					if o := objOf(info, l); o != nil && (o == iObj || o == chVar) {
-						extra++
-					}
-				}
-			case *ast.IncDecStmt:
-				if objOf(info, s.X) == iObj {
-					extra++
-				}
-			case *ast.BranchStmt:
-				if s.Tok == token.CONTINUE || s.Tok == token.BREAK || s.Tok == token.GOTO {
-					if s.Pos() < rloop.Body.List[sendIdx].Pos() {
-						extra += 100
-					}
-				}
-			}
-			return true
-		})
-		if extra != 2 {
-			r.Bad(c, rloop.Pos(), "inside the reader loop the counter/channel variables are written %d times (expected exactly the pick and the step) or a branch statement bypasses the send: a block can take a slot other than its round-robin one", extra)
-		} else {
-			r.OK(c, rloop.Pos(), "each iteration picks dec.%s[%s], steps %s=(%s+1)%%%s once and sends exactly one pair (data or error) on the picked channel", inCls, iObj.Name(), iObj.Name(), iObj.Name(), nObj.Name())
-		}
-	}
-	// reader start: counter zero-initialised; restart block goes to index 0 then one step
-	if iObj != nil {
-		c := "restart@" + ru.name
-		zero := false
-		ast.Inspect(rd.lit.Body, func(n ast.Node) bool {
-			if vs, ok := n.(*ast.ValueSpec); ok {
-				for k, nm := range vs.Names {
-					if info.Defs[nm] == iObj {
-						if len(vs.Values) == 0 {
-							zero = true
-						} else if v, ok := constInt(info, vs.Values[k]); ok && v == 0 {
-							zero = true
-						}
-					}
-				}
-			}
-			if as, ok := n.(*ast.AssignStmt); ok && as.Tok == token.DEFINE {
-				for k, l := range as.Lhs {
-					if info.Defs[l.(*ast.Ident)] == iObj && k < len(as.Rhs) {
-						if v, ok := constInt(info, as.Rhs[k]); ok && v == 0 {
-							zero = true
-						}
-					}
-				}
-			}
-			return true
-		})
-		if !zero {
-			r.Bad(c+" start", rd.lit.Pos(), "the dispatch counter does not start at 0 (the serializer starts collecting at 0)")
-		} else {
-			r.OK(c+" start", rd.lit.Pos(), "dispatch counter %s starts at 0", iObj.Name())
-		}
-		// bare sends before the loop
-		for _, op := range ops {
-			if op.u != ru || op.kind != "send" || op.pos > rloop.Pos() {
-				continue
-			}
-			ix, ok := ast.Unparen(op.expr).(*ast.IndexExpr)
-			v, okc := int64(-1), false
-			if ok {
-				v, okc = constInt(info, ix.Index)
-			}
-			// the send and exactly one step share a block statement
-			par := parentsOf(r.P, m.start)
-			var snd ast.Node
-			ast.Inspect(rd.lit.Body, func(n ast.Node) bool {
-				if s, ok := n.(*ast.SendStmt); ok && s.Pos() == op.pos {
-					snd = s
-				}
-				return true
-			})
-			blk, _ := par[snd].(*ast.BlockStmt)
-			steps := 0
-			if blk != nil {
-				for _, st := range blk.List {
-					if kk, nn, ok := stepForm(info, st, iObj); ok && kk == 1 && nn == nObj && st.Pos() > op.pos {
-						steps++
-					}
-				}
-			}
-			if okc && v == 0 && steps == 1 {
-				r.OK(c, op.pos, "the restart block is sent to dec.%s[0] and the counter is stepped once, so the loop continues at slot 1", inCls)
-			} else {
-				r.Bad(c, op.pos, "the block read before the loop must go to slot 0 and advance the counter exactly once (const index 0: %v, steps after it: %d): otherwise the serializer collects it out of order", okc && v == 0, steps)
-			}
-		}
-	}
-
-	// ---- serializer
-	sg := m.goOf("serializer")
-	su := m.units[sg.lit]
-	var sloop *ast.ForStmt
-	for _, st := range sg.lit.Body.List {
-		if fs, ok := st.(*ast.ForStmt); ok {
-			sloop = fs
-		}
-	}
-	c = "collect@" + su.name
-	if sloop == nil {
-		r.Anchor("serializer loop")
-	} else {
-		var jObj types.Object
-		startOK, stepOK := false, false
-		if init, ok := sloop.Init.(*ast.AssignStmt); ok && len(init.Lhs) == 1 && len(init.Rhs) == 1 {
-			jObj = objOf(info, init.Lhs[0])
-			if v, ok := constInt(info, init.Rhs[0]); ok && v == 0 {
-				startOK = true
-			}
-		}
-		if jObj != nil && sloop.Post != nil {
-			if kk, nn, ok := stepForm(info, sloop.Post, jObj); ok && kk == 1 && nn == nObj {
-				stepOK = true
-			}
-		}
-		// one receive per iteration from dec.<outCls>[j]
-		nrecv, recvOK := 0, true
-		var outVar types.Object
-		for _, st := range sloop.Body.List {
-			if as, ok := st.(*ast.AssignStmt); ok && len(as.Rhs) == 1 {
-				if ix, ok := ast.Unparen(as.Rhs[0]).(*ast.IndexExpr); ok {
-					if f := fieldOf(info, ix.X); f != nil && f.Name() == outCls && objOf(info, ix.Index) == jObj {
-						outVar = objOf(info, as.Lhs[0])
-					}
-				}
-			}
-		}
-		for _, op := range ops {
-			if op.u == su && op.kind == "recv" && op.class == outCls {
-				nrecv++
-				if outVar == nil || objOf(info, op.expr) != outVar {
-					recvOK = false
-				}
-				// must be a top-level select of the loop body
-				top := false
-				for _, st := range sloop.Body.List {
-					if st == op.sel {
-						top = true
-					}
-				}
-				if !top {
-					recvOK = false
-				}
-			}
-		}
-		writes := 0
-		ast.Inspect(sloop.Body, func(n ast.Node) bool {
-			switch s := n.(type) {
-			case *ast.AssignStmt:
-				for _, l := range s.Lhs {
-					if o := objOf(info, l); o != nil && (o == jObj || (o == outVar && s.Tok != token.DEFINE)) {
-						writes++
-					}
-				}
-			case *ast.IncDecStmt:
-				if objOf(info, s.X) == jObj {
-					writes++
-				}
-			case *ast.BranchStmt:
-				if s.Tok == token.CONTINUE {
-					writes += 100 // continue still runs the post statement but skips the forward to the queue
-				}
-			}
-			return true
-		})
-		switch {
-		case !startOK:
-			r.Bad(c, sloop.Pos(), "the serializer does not start collecting at slot 0 (`%s`), where the reader puts the first block", src(r.P.Fset, sloop.Init))
-		case !stepOK:
-			r.Bad(c, sloop.Pos(), "the serializer's counter is not advanced by `(i+1) %% %s` per turn", nObj.Name())
-		case nrecv != 1 || !recvOK:
-			r.Bad(c, sloop.Pos(), "the serializer must receive exactly once per turn, unconditionally, from dec.%s[i] (found %d receives)", outCls, nrecv)
-		case writes != 0:
-			r.Bad(c, sloop.Pos(), "the serializer's counter/channel variables are modified inside the loop body or a turn is skipped with continue")
-		default:
-			r.OK(c, sloop.Pos(), "starts at 0, steps (i+1)%%%s in the post statement, one unconditional receive from dec.%s[i] per turn — the same start, step and modulus as the reader's dispatch", nObj.Name(), outCls)
-		}
-		// forwards what it received to the consumer queue unchanged, once
-		c2 := "forward@" + su.name
-		nsend := 0
-		okFwd := true
-		var recvVar types.Object
-		for _, op := range ops {
-			if op.u == su && op.kind == "recv" && op.class == outCls && op.clause != nil {
-				if as, ok := op.clause.Comm.(*ast.AssignStmt); ok && len(as.Lhs) == 1 {
-					recvVar = objOf(info, as.Lhs[0])
-				}
-			}
-		}
-		ast.Inspect(sloop.Body, func(n ast.Node) bool {
-			if s, ok := n.(*ast.SendStmt); ok {
-				nsend++
-				if f := fieldOf(info, s.Chan); f == nil || f.Name() != consumerRecv || recvVar == nil || objOf(info, s.Value) != recvVar {
-					okFwd = false
-				}
-			}
-			return true
-		})
-		r.Check(nsend == 1 && okFwd, c2, sloop.Pos(), "each received pair is forwarded once, unchanged, to the ordered queue the consumer reads",
-			fmt.Sprintf("the serializer does not forward exactly the received pair to dec.%s once per turn (sends: %d)", consumerRecv, nsend))
-	}
-
-	// ---- workers: inputs[k] <-> outputs[k]
-	wg := m.goOf("worker")
-	wu := m.units[wg.lit]
-	c = "wiring@" + wu.name
-	// locals made in the loop body
-	var inVar, outVar types.Object
-	appIn, appOut := 0, 0
-	for _, st := range spawnLoop.Body.List {
-		as, ok := st.(*ast.AssignStmt)
-		if !ok || len(as.Lhs) != 1 || len(as.Rhs) != 1 {
-			continue
-		}
-		if call, ok := as.Rhs[0].(*ast.CallExpr); ok {
-			switch builtinName(info, call) {
-			case "append":
-				if f := fieldOf(info, as.Lhs[0]); f != nil && len(call.Args) == 2 && fieldOf(info, call.Args[0]) == f {
-					if f.Name() == inCls {
-						appIn++
-						inVar = objOf(info, call.Args[1])
-					}
-					if f.Name() == outCls {
-						appOut++
-						outVar = objOf(info, call.Args[1])
-					}
-				}
-			}
-		}
-	}
-	// all appends to the two fields anywhere in the package
-	totalApp := 0
-	for _, u := range m.sortedUnits() {
-		m.walkUnit(u, func(n ast.Node) bool {
-			if as, ok := n.(*ast.AssignStmt); ok {
-				for _, l := range as.Lhs {
-					if f := fieldOf(info, l); f != nil && (f.Name() == inCls || f.Name() == outCls) && namedPath(selRecv(info, ast.Unparen(l))) == namedPath(m.decoderT) {
-						totalApp++
-					}
-				}
-			}
-			return true
-		})
-	}
-	// the closure ranges over inVar and sends on outVar; both are made in this iteration
-	madeInLoop := func(o types.Object) bool {
-		return o != nil && o.Pos() > spawnLoop.Body.Pos() && o.Pos() < spawnLoop.Body.End()
-	}
-	okWire := appIn == 1 && appOut == 1 && totalApp == 2 && madeInLoop(inVar) && madeInLoop(outVar)
-	var rngVar, sndVar types.Object
-	for _, op := range ops {
-		if op.u == wu && op.kind == "range" {
-			rngVar = objOf(info, op.expr)
-		}
-		if op.u == wu && op.kind == "send" {
-			sndVar = objOf(info, op.expr)
-		}
-	}
-	if rngVar != inVar || sndVar != outVar {
-		okWire = false
-	}
-	r.Check(okWire, c, wg.stmt.Pos(), fmt.Sprintf("worker k ranges over the channel appended to dec.%s and sends on the channel appended to dec.%s in the same iteration (each appended exactly once, nowhere else)", inCls, outCls),
-		fmt.Sprintf("worker k is not wired inputs[k]→outputs[k]: appends per iteration in=%d out=%d, appends in package=%d, closure ranges over the appended input: %v, sends on the appended output: %v", appIn, appOut, totalApp, rngVar == inVar, sndVar == outVar))
-	// one output pair per input pair on all paths
-	c = "one-out-per-in@" + wu.name
-	var wloop *ast.RangeStmt
-	for _, st := range wg.lit.Body.List {
-		if rs, ok := st.(*ast.RangeStmt); ok {
-			wloop = rs
-		}
-	}
-	if wloop == nil {
-		r.Anchor("worker range loop")
-	} else {
-		top := 0
-		for _, st := range wloop.Body.List {
-			if sel, ok := st.(*ast.SelectStmt); ok {
-				for _, cc := range sel.Body.List {
-					if _, ok := cc.(*ast.CommClause).Comm.(*ast.SendStmt); ok {
-						top++
-					}
-				}
-			}
-			if _, ok := st.(*ast.SendStmt); ok {
-				top++
-			}
-		}
-		total, branches := 0, 0
-		ast.Inspect(wloop.Body, func(n ast.Node) bool {
-			switch s := n.(type) {
-			case *ast.SendStmt:
-				total++
-			case *ast.BranchStmt:
-				_ = s
-				branches++
-			case *ast.ReturnStmt:
-				branches++
-			}
-			return true
-		})
-		r.Check(top == 1 && total == 1 && branches == 0, c, wloop.Pos(), "the loop body sends exactly one pair per received pair at its top level; no continue/break/return can skip it (a decode or input error is sent as a pair too)",
-			fmt.Sprintf("a worker does not emit exactly one output pair per input pair on every path (top-level sends %d, sends %d, branch/return statements %d): the serializer's slot for that block would be filled by the next block", top, total, branches))
-	}
-}
-
-func c02Q2(r *core.R) {
-	m := modelOrAnchor(r)
-	if m == nil {
-		return
-	}
-	info := m.info
-	wg := m.goOf("worker")
-	// the per-worker decoder variable: local of type *dataDecoder used in the worker closure
-	var dd types.Object
-	ast.Inspect(wg.lit.Body, func(n ast.Node) bool {
-		if id, ok := n.(*ast.Ident); ok {
-			if o := info.Uses[id]; o != nil && namedPath(o.Type()) == namedPath(m.ddT) {
-				if _, isVar := o.(*types.Var); isVar {
-					dd = o
-				}
-			}
-		}
-		return true
-	})
-	c := "private decoder@" + m.units[wg.lit].name
-	if dd == nil {
-		r.Anchor("per-worker decoder variable used in the worker closure")
-		return
-	}
-	inLoop := dd.Pos() > wg.inLoop.Body.Pos() && dd.Pos() < wg.inLoop.Body.End()
-	// fresh allocation per iteration
-	fresh := false
-	ast.Inspect(wg.inLoop.Body, func(n ast.Node) bool {
-		if as, ok := n.(*ast.AssignStmt); ok && len(as.Lhs) == 1 && len(as.Rhs) == 1 && info.Defs[identOf(as.Lhs[0])] == dd {
-			if ue, ok := as.Rhs[0].(*ast.UnaryExpr); ok && ue.Op == token.AND {
-				if _, ok := ue.X.(*ast.CompositeLit); ok {
-					fresh = true
-				}
-			}
-			if call, ok := as.Rhs[0].(*ast.CallExpr); ok && builtinName(info, call) == "new" {
-				fresh = true
-			}
-		}
-		return true
-	})
-	// used only inside the worker closure (besides its definition)
-	outside := 0
-	ast.Inspect(m.start.Decl.Body, func(n ast.Node) bool {
-		if id, ok := n.(*ast.Ident); ok && info.Uses[id] == dd {
-			if !(id.Pos() > wg.lit.Pos() && id.Pos() < wg.lit.End()) {
-				outside++
-			}
-		}
-		return true
-	})
-	switch {
-	case !inLoop || !fresh:
-		r.Bad(c, dd.Pos(), "the decoder value `%s` used by the worker goroutines is not a fresh allocation inside the spawning loop: all workers share one decoder and its cached iterators, buffers and object slice", dd.Name())
-	case outside > 0:
-		r.Bad(c, dd.Pos(), "the per-worker decoder `%s` is also used outside its worker closure (%d uses)", dd.Name(), outside)
-	default:
-		r.OK(c, dd.Pos(), "`%s` is allocated per iteration of the spawning loop and referenced only by that iteration's closure", dd.Name())
-	}
-	// closures capture no loop variable of the spawner
-	var loopVars []types.Object
-	ast.Inspect(m.start.Decl.Body, func(n ast.Node) bool {
-		switch l := n.(type) {
-		case *ast.ForStmt:
-			if init, ok := l.Init.(*ast.AssignStmt); ok && init.Tok == token.DEFINE {
-				for _, x := range init.Lhs {
-					if l.Pos() < wg.lit.Pos() || true {
-						loopVars = append(loopVars, info.Defs[identOf(x)])
-					}
-				}
-			}
-		case *ast.RangeStmt:
-			if l.Tok == token.DEFINE {
-				if l.Key != nil {
-					loopVars = append(loopVars, info.Defs[identOf(l.Key)])
-				}
-				if l.Value != nil {
-					loopVars = append(loopVars, info.Defs[identOf(l.Value)])
-				}
-			}
-		}
-		return true
-	})
-	for _, g := range m.gos {
-		c := "captures@" + m.units[g.lit].name
-		bad := ""
-		ast.Inspect(g.lit.Body, func(n ast.Node) bool {
-			if id, ok := n.(*ast.Ident); ok {
-				for _, lv := range loopVars {
-					if lv != nil && info.Uses[id] == lv && !(lv.Pos() > g.lit.Pos() && lv.Pos() < g.lit.End()) {
-						bad = lv.Name()
-					}
-				}
-			}
-			return true
-		})
-		if bad != "" {
-			r.Bad(c, g.stmt.Pos(), "the goroutine closure captures loop variable `%s` of the spawner (go.mod says go 1.16: one variable per loop, shared by all iterations)", bad)
-		} else {
-			r.OK(c, g.stmt.Pos(), "captures no loop variable of the spawner (%d loop variables checked)", len(loopVars))
-		}
-	}
-}
-
-func identOf(e ast.Expr) *ast.Ident {
-	id, _ := ast.Unparen(e).(*ast.Ident)
-	if id == nil {
-		return &ast.Ident{}
-	}
-	return id
-}
-
-func c02Q3(r *core.R) {
-	m := modelOrAnchor(r)
-	if m == nil {
-		return
-	}
-	info := m.info
-	// the worker entry point: method of the per-worker decoder called in the worker closure, returning ([]osm.Object, error)
-	var entry *FuncInfo
-	for _, fn := range m.units[m.goOf("worker").lit].calls {
-		sig := fn.Type().(*types.Signature)
-		if sig.Recv() != nil && namedPath(sig.Recv().Type()) == namedPath(m.ddT) && sig.Results().Len() == 2 {
-			entry = findFunc(m.pk, funcName(fn))
-		}
-	}
-	if entry == nil {
-		r.Anchor("decode entry point called by the worker")
-		return
-	}
-	// the field returned on success
-	var qField *types.Var
-	ast.Inspect(entry.Decl.Body, func(n ast.Node) bool {
-		if ret, ok := n.(*ast.ReturnStmt); ok && len(ret.Results) == 2 {
-			if f := fieldOf(info, ret.Results[0]); f != nil {
-				qField = f
-			}
-		}
-		return true
-	})
-	if qField == nil {
-		r.Anchor("object slice field returned by " + entry.Name())
-		return
-	}
-	c := "fresh@" + entry.Name() + " " + qField.Name()
-	g := newCFG(info, entry.Decl.Body)
-	dom := dominators(g)
-	var makePos token.Pos
-	ast.Inspect(entry.Decl.Body, func(n ast.Node) bool {
-		if as, ok := n.(*ast.AssignStmt); ok && len(as.Lhs) == 1 && fieldOf(info, as.Lhs[0]) == qField {
-			if call, ok := as.Rhs[0].(*ast.CallExpr); ok && builtinName(info, call) == "make" {
-				makePos = as.Pos()
-			}
-		}
-		return true
-	})
-	if !makePos.IsValid() {
-		r.Bad(c, entry.Decl.Pos(), "%s does not assign a fresh `make` to dec.%s: the slice handed to the consumer for the previous block is reused while the consumer is still reading it", entry.Name(), qField.Name())
-	} else {
-		// make dominates every call and every other statement touching q in the entry
-		ok := true
-		ast.Inspect(entry.Decl.Body, func(n ast.Node) bool {
-			switch x := n.(type) {
-			case *ast.CallExpr:
-				if fn := callee(info, x); fn != nil && fn.Pkg() == m.pk.Types && x.Pos() != makePos {
-					if !posDominates(g, dom, makePos, x.Pos()) && m.unitReaches(m.unitOfFunc(fn), func(u *unit) bool { return unitWritesField(m, u, qField) }) {
-						ok = false
-					}
-				}
-			case *ast.ReturnStmt:
-				if usesField(info, x, qField) && !posDominates(g, dom, makePos, x.Pos()) {
-					ok = false
-				}
-			}
-			return true
-		})
-		r.Check(ok, c, makePos, "a fresh make is assigned before any function that appends to it is called and before it is returned",
-			"the fresh make does not dominate the calls that append to the slice / the return")
-	}
-	// every write to q anywhere: make in entry, or `dec.q = append(dec.q, x)`
-	n := 0
-	for _, u := range m.sortedUnits() {
-		m.walkUnit(u, func(x ast.Node) bool {
-			as, ok := x.(*ast.AssignStmt)
-			if !ok {
-				return true
-			}
-			for i, l := range as.Lhs {
-				if !usesField(info, l, qField) {
-					continue
-				}
-				n++
-				cc := "write@" + u.name + " " + qField.Name()
-				if fieldOf(info, l) != qField {
-					r.Bad(cc, as.Pos(), "`%s` writes an element of the object slice in place", src(r.P.Fset, as))
-					continue
-				}
-				okw := false
-				if i < len(as.Rhs) {
-					if call, ok := as.Rhs[i].(*ast.CallExpr); ok {
-						switch builtinName(info, call) {
-						case "make":
-							okw = u.fi.Obj == entry.Obj
-						case "append":
-							okw = len(call.Args) >= 1 && fieldOf(info, call.Args[0]) == qField
-						}
-					}
-				}
-				if okw {
-					r.OK(cc, as.Pos(), "`%s`", src(r.P.Fset, as))
-				} else {
-					r.Bad(cc, as.Pos(), "`%s`: the object slice may only be replaced by a fresh make in %s or extended by append; anything else (re-slicing, reuse) lets a worker overwrite objects the consumer still holds", src(r.P.Fset, as), entry.Name())
-				}
-			}
-			return true
-		})
-	}
-	r.Stat("writes_to_object_slice", n)
-}
-
-func unitWritesField(m *pbfModel, u *unit, f *types.Var) bool {
-	w := false
-	m.walkUnit(u, func(x ast.Node) bool {
-		if as, ok := x.(*ast.AssignStmt); ok {
-			for _, l := range as.Lhs {
-				if usesField(m.info, l, f) {
-					w = true
-				}
-			}
-		}
-		return true
-	})
-	return w
-}
-
-func c02Q4(r *core.R) {
-	m := modelOrAnchor(r)
-	if m == nil {
-		return
-	}
-	info := m.info
-	// scratch buffers of the spawner
-	var bufs []types.Object
-	ast.Inspect(m.start.Decl.Body, func(n ast.Node) bool {
-		as, ok := n.(*ast.AssignStmt)
-		if !ok || len(as.Lhs) != 1 || len(as.Rhs) != 1 {
-			return true
-		}
-		call, ok := as.Rhs[0].(*ast.CallExpr)
-		if !ok || builtinName(info, call) != "make" {
-			return true
-		}
-		if sl, ok := info.TypeOf(call.Args[0]).Underlying().(*types.Slice); ok && types.Identical(sl.Elem(), types.Typ[types.Byte]) {
-			bufs = append(bufs, objOf(info, as.Lhs[0]))
-		}
-		return true
-	})
-	if len(bufs) < 3 {
-		r.Anchor("reader scratch buffers (make([]byte, K)) in the spawner")
-	}
-	// track each buffer through in-package parameters
-	type key struct {
-		o  types.Object
-		fn *FuncInfo
-	}
-	seen := map[types.Object]bool{}
-	var work []key
-	for _, b := range bufs {
-		work = append(work, key{b, m.start})
-	}
-	for len(work) > 0 {
-		k := work[len(work)-1]
-		work = work[:len(work)-1]
-		if seen[k.o] {
-			continue
-		}
-		seen[k.o] = true
-		par := parentsOf(r.P, k.fn)
-		c := "buf@" + k.fn.Name() + " " + k.o.Name()
-		bad := ""
-		var bpos token.Pos
-		nuse := 0
-		ast.Inspect(k.fn.Decl, func(n ast.Node) bool {
-			id, ok := n.(*ast.Ident)
-			if !ok || info.Uses[id] != k.o {
-				return true
-			}
-			nuse++
-			// climb through slice expressions of the buffer itself
-			var e ast.Node = id
-			for {
-				if se, ok := par[e].(*ast.SliceExpr); ok && se.X == e {
-					e = se
-					continue
-				}
-				if pe, ok := par[e].(*ast.ParenExpr); ok {
-					e = pe
-					continue
-				}
-				break
-			}
-			switch p := par[e].(type) {
-			case *ast.CallExpr:
-				if p.Fun == e {
-					return true
-				}
-				if bn := builtinName(info, p); bn == "len" || bn == "cap" {
-					return true
-				}
-				fn := callee(info, p)
-				switch {
-				case isPkgFunc(fn, "io", "ReadFull"), isPkgFunc(fn, "google.golang.org/protobuf/proto", "Unmarshal"):
-					return true
-				case fn != nil && fn.Name() == "Uint32" && fn.Pkg() != nil && fn.Pkg().Path() == "encoding/binary":
-					return true
-				case fn != nil && fn.Pkg() == m.pk.Types:
-					tf := findFunc(m.pk, funcName(fn))
-					if tf == nil {
-						bad, bpos = "passed to "+fn.Name(), id.Pos()
-						return true
-					}
-					idx := -1
-					for i, a := range p.Args {
-						if a == e {
-							idx = i
-						}
-					}
-					pi := 0
-					for _, fld := range tf.Decl.Type.Params.List {
-						for _, nm := range fld.Names {
-							if pi == idx {
-								work = append(work, key{info.Defs[nm], tf})
-							}
-							pi++
-						}
-					}
-					return true
-				default:
-					name := "a function value"
-					if fn != nil {
-						name = fn.FullName()
-					}
-					bad, bpos = "passed to "+name+", which may retain it", id.Pos()
-				}
-			case *ast.AssignStmt:
-				// buf = buf[:n] (re-slice of itself) is fine
-				for i, rh := range p.Rhs {
-					if rh == e {
-						if i < len(p.Lhs) && objOf(info, p.Lhs[i]) == k.o {
-							return true
-						}
-						bad, bpos = "assigned to `"+src(r.P.Fset, p.Lhs[min(i, len(p.Lhs)-1)])+"`", id.Pos()
-					}
-				}
-				for _, l := range p.Lhs {
-					if l == e {
-						return true // target of the re-slice
-					}
-				}
-			case *ast.Field:
-				return true // parameter declaration
-			default:
-				bad, bpos = fmt.Sprintf("used in %T", p), id.Pos()
-			}
-			return true
-		})
-		if bad != "" {
-			r.Bad(c, bpos, "scratch buffer %s is %s: it is overwritten by the next block while that reference is still alive, corrupting blocks already dispatched", k.o.Name(), bad)
-		} else {
-			r.OK(c, k.o.Pos(), "%d uses: only io.ReadFull, binary.BigEndian.Uint32, proto.Unmarshal, len, self re-slice, or passing on to a tracked parameter", nuse)
-		}
-	}
-	// no UnmarshalOptions, no unsafe in the package
-	nopt := 0
-	var optPos token.Pos
-	for _, f := range m.pk.Syntax {
-		if isGenerated(r.P, f.Pos()) {
-			continue
-		}
-		ast.Inspect(f, func(n ast.Node) bool {
-			if cl, ok := n.(*ast.CompositeLit); ok && namedPath(info.TypeOf(cl)) == "google.golang.org/protobuf/proto.UnmarshalOptions" {
-				nopt++
-				optPos = cl.Pos()
-			}
-			return true
-		})
-	}
-	if nopt > 0 {
-		r.Bad("UnmarshalOptions@osmpbf", optPos, "proto.UnmarshalOptions is used: non-default options (Merge, aliasing resolvers) void the assumption that unmarshalling copies out of the reused scratch buffer")
-	} else {
-		r.OKTrivial("UnmarshalOptions@osmpbf", token.NoPos, "no proto.UnmarshalOptions literal in package osmpbf")
-	}
-	usesUnsafe := false
-	for _, f := range m.pk.Syntax {
-		if isGenerated(r.P, f.Pos()) {
-			continue
-		}
-		for _, im := range f.Imports {
-			if strings.Trim(im.Path.Value, `"`) == "unsafe" {
-				usesUnsafe = true
-			}
-		}
-	}
-	if usesUnsafe {
-		r.Bad("unsafe@osmpbf", token.NoPos, "package osmpbf imports unsafe: type-based ownership arguments no longer hold")
-	} else {
-		r.OKTrivial("unsafe@osmpbf", token.NoPos, "package osmpbf (hand-written files) does not import unsafe")
-	}
-}
-
-func c02Q5(r *core.R) {
-	m := modelOrAnchor(r)
-	if m == nil {
-		return
-	}
-	pbfRoleSeparation(r, m, true)
-	// per-worker decoder fields: every access is rooted in the receiver of a method of that type (or the spawner's local)
-	info := m.info
-	dd := namedPath(m.ddT)
-	perField := map[*types.Var][2]int{}
-	var order []*types.Var
-	for _, u := range m.sortedUnits() {
-		m.walkUnit(u, func(n ast.Node) bool {
-			sel, ok := n.(*ast.SelectorExpr)
-			if !ok {
-				return true
-			}
-			s := info.Selections[sel]
-			if s == nil || s.Kind() != types.FieldVal || namedPath(s.Recv()) != dd {
-				return true
-			}
-			f := s.Obj().(*types.Var)
-			if _, ok := perField[f]; !ok {
-				order = append(order, f)
-			}
-			cnt := perField[f]
-			cnt[0]++
-			root := rootObj(info, sel.X)
-			okRoot := false
-			if fd, isDecl := u.node.(*ast.FuncDecl); isDecl && fd.Recv != nil && len(fd.Recv.List) == 1 && len(fd.Recv.List[0].Names) == 1 {
-				if info.Defs[fd.Recv.List[0].Names[0]] == root && namedPath(root.Type()) == dd {
-					okRoot = true
-				}
-			}
-			if !okRoot || !(u.roles["worker"] && len(u.roles) == 1) {
-				cnt[1]++
-			}
-			perField[f] = cnt
-			return true
-		})
-	}
-	for _, f := range order {
-		cnt := perField[f]
-		c := "field " + m.ddT.Obj().Name() + "." + f.Name()
-		if cnt[1] == 0 {
-			r.OK(c, f.Pos(), "%d accesses, all through the method receiver in worker-only functions: private to the worker that owns the decoder value (Q2)", cnt[0])
-		} else {
-			r.Bad(c, f.Pos(), "%d of %d accesses are not through the receiver of a worker-only method of the per-worker decoder: the field can be reached from another goroutine", cnt[1], cnt[0])
-		}
-	}
 }
